@@ -268,19 +268,20 @@ def _generated(case, acc, hook, bfp):
                 with open(path, 'wb') as f:
                     f.write(whole[:max(1, len(whole) // 2)])
             else:
-                # the process is out of file descriptors when the file is opened
-                import types
+                # the process is out of file descriptors when the file is opened (builtins.open is what every way of opening the file -
+                # plain or through gzip - ends up calling, so the injection does not depend on how the parser opens it)
+                import builtins
                 import errno
+                real_open = builtins.open
 
-                def no_handles(*a, **kw):
-                    raise OSError(errno.EMFILE, 'Too many open files (injected)')
-                real_gzip = bfp.gzip
-                bfp.open = no_handles
-                bfp.gzip = types.SimpleNamespace(open=no_handles)
+                def no_handles(file, *a, **kw):
+                    if isinstance(file, (str, bytes, os.PathLike)) and os.path.abspath(os.fsdecode(file)) == os.path.abspath(path):
+                        raise OSError(errno.EMFILE, 'Too many open files (injected)')
+                    return real_open(file, *a, **kw)
+                builtins.open = no_handles
 
                 def restore():
-                    del bfp.open
-                    bfp.gzip = real_gzip
+                    builtins.open = real_open
             failed = False
             try:
                 p.getIndexCorrectedBarcodeAndHammingDistance(wl[0], alias)
